@@ -1,6 +1,7 @@
 """C06 -- shard routing is a deterministic partition of series.
 R1 MCSplit (algebra for every bucket function); R2 batch structures; harness c06 records real Split / DispatchMetricMap
-results; R3 PartitionTrace judges the recorded trace (route learned on first sight)."""
+results; R3 PartitionTrace judges the recorded trace (route learned on first sight).
+Stage: C01's pipeline driver with ConservationProp's OncePerFlush / same-aggregator clauses (every shard reports exactly once per flush)."""
 import json
 import os
 import vlib
